@@ -91,6 +91,9 @@ fn mk(cfg: &RunCfg) -> Box<dyn Oracle> {
 fn conf(g: &mut Gen) {
     super::byz::install(g);
     g.cfg.weights.msg += 4;
+    // churn: forgers get removed, the people they impersonated join (and may inherit the leaf)
+    g.cfg.weights.remove += 3;
+    g.cfg.weights.invite += 3;
 }
 
 pub fn spec() -> CheckSpec {
